@@ -27,6 +27,8 @@ SPEC = {
 
 
 CLOSE_VALUES = ["close", "Close", "keep-alive, close"]
+# … or sets a Connection header that does NOT ask to close: the server's own close (request maximum) must still be announced
+APP_CONN_VALUES = CLOSE_VALUES + ["keep-alive", "Keep-Alive"]
 
 
 def gen_case(ctx: Ctx, idx: int) -> dict:
@@ -49,7 +51,7 @@ def gen_case(ctx: Ctx, idx: int) -> dict:
     # "neither side asked to close": the APPLICATION asks, with its own Connection header on the response
     if rng.random() < 0.15:
         k = rng.randrange(n)
-        apps[k] = {**apps[k], "conn_close": rng.choice(CLOSE_VALUES), "conn_close_name": rng.choice(["connection", "Connection"])}
+        apps[k] = {**apps[k], "conn_close": rng.choice(APP_CONN_VALUES), "conn_close_name": rng.choice(["connection", "Connection"])}
     # applications that answer WHILE they read: the response has begun (head, perhaps a first piece of the body) when the rest of
     # the request body arrives - or goes wrong
     for k in range(n):
@@ -91,6 +93,10 @@ def corpus() -> List[dict]:
             for when in ("after_body", "eager"):
                 add([post, plain, plain], [{**ok, "when": when, "conn_close": value}, ok, ok], split)
         add([plain, post, plain], [ok, {**ok, "conn_close": "close", "conn_close_name": "Connection", "content_length": False}, ok], split)
+        if split in ("per_request", "one"):
+            # the application's own `connection: keep-alive` on every response, the request maximum reached at the second one
+            add([plain, plain, plain], [{**ok, "conn_close": "keep-alive"}], split, kmax=2)
+            add([post, plain], [{**ok, "conn_close": "Keep-Alive", "conn_close_name": "Connection", "when": "eager"}], split, kmax=1)
     # the body goes wrong AFTER the application has started (not finished) its response: the rest of the body arrives in a later read
     # than the head; streaming applications (head / head + first piece early, the rest when the body has ended or the client is gone)
     echo = {**ok, "when": "echo", "chunks": ["a", "bc"], "content_length": False}
@@ -380,7 +386,9 @@ def check_e2e(ctx: Ctx, cases: List[dict]) -> None:
                         calls = sum(1 for l in labels if l[1] == "appSendCall" and l[2] == k)
                         rets = sum(1 for l in labels if l[1] == "appSendRet" and l[2] == k)
                         pieces = len(reqs[k]["chunks"] or []) if reqs[k]["chunks"] is not None else (len(reqs[k]["body"]) + 65535) // 65536
-                        f08 = calls > rets and pieces >= 10 and not any(m[1] == "http.request" for m in res["apps"][k]["recv"])
+                        # (the queue holds max_app_queue_size = 10 messages: full when the application left at least that many unread)
+                        unread = pieces - sum(1 for m in res["apps"][k]["recv"] if m[1] == "http.request")
+                        f08 = calls > rets and unread >= 10
                         ctx.violation("not_closed_after_close_cause", wcase, {"k": k, "closed_at": res["closed_at"]},
                                       {**sig, **({"blocked_put": "disconnect"} if f08 else {})})
 
@@ -402,7 +410,7 @@ def run(ctx: Ctx) -> None:
     e2e_fixed = e2e_fixed[: ctx.budget(24, 200)]
     e2e_started = [c for c in fixed if any(a["when"] == "echo" for a in c["apps"]) and c["split"] in ("tail_apart", "per_request")
                    and not any(c is d for d in e2e_fixed)]
-    check_e2e(ctx, e2e_fixed + e2e_started[: ctx.budget(10, 40)] + cases[: ctx.budget(60, 900)])
+    check_e2e(ctx, e2e_fixed + e2e_started[: ctx.budget(10, 40)] + cases[: ctx.budget(60, 850)])
 
 
 def replay(ctx: Ctx, case: dict) -> None:
